@@ -83,6 +83,14 @@ def cases(rng, tier):
                     for inner_cid in ("same", "other"):
                         out.append({"t": "jar", "client": cid, "signer": signer, "inner_cid": inner_cid, "conflict": None, "iss": iss, "exp": exp,
                                     "inner_ruri": "other" if inner_cid == "other" else "own"})
+    # the same request objects passed BY REFERENCE: the provider fetches them from the request_uri (in-memory transport)
+    for cid in ("c_rs", "c_es", "c_any"):
+        for signer in SIGNERS:
+            for inner_cid in ("absent", "same", "other"):
+                for _ in range(n):
+                    out.append({"t": "jar", "via": "reference", "fl": rng.choice(["oidc", "oauth2"]), "client": cid, "signer": signer, "inner_cid": inner_cid, "conflict": None,
+                                "iss": rng.choice(["own", "own", "other", "absent"]), "exp": rng.choice([None, None, "expired", "future"]),
+                                "inner_ruri": rng.choice(["own", "other"]) if inner_cid == "other" else "own"})
     # the same request objects travelling through the pushed-authorization endpoint (pushed, then redeemed by request_uri)
     for cid in ("c_rs", "c_es", "c_any"):
         for signer in SIGNERS:
@@ -159,6 +167,11 @@ def _object(E, c):
     return tok, alg, verifies, inner
 
 
+class _Fetched:
+    def __init__(self, text):
+        self.status_code, self.status, self.text, self.headers = 200, 200, text, {"content-type": "application/jwt"}
+
+
 def impl(c):
     E = env(c.get("fl", "oidc"))
     az = E.s.get_endpoint("authorization")
@@ -166,6 +179,10 @@ def impl(c):
         tok, alg, verifies, inner = _object(E, c)
         cid = c["client"]
         outer = dict(client_id=cid, redirect_uri=RED.format(cid), scope=["openid"], state="outer-state", response_type="code", nonce="n", request=tok)
+        if c.get("via") == "reference":
+            del outer["request"]
+            uri = outer["request_uri"] = "https://%s.example.com/request_objects/ro.jwt" % cid.replace("_", "-")
+            E.s.context.httpc = lambda method, url, **kw: _Fetched(tok if url == uri else "")
         try:
             pr = az.parse_request(AuthorizationRequest(**outer).to_dict())
         except Exception as e:
@@ -242,7 +259,7 @@ def model_lines(c, obs):
         inner = {"absent": "-", "same": enc_str(cid), "other": enc_str(other)}[c["inner_cid"]]
         iss = {"own": enc_str(cid), "other": enc_str(other), "absent": "-"}[c.get("iss", "own")]
         ro = f"{'1' if obs['verifies'] else '0'}:{obs['alg']}:{inner}:{iss}"
-        return ["\t".join(["jar", "byvalue", E.reg[cid] or "-", ",".join(E.prov_algs), enc_str(cid), ro])]
+        return ["\t".join(["jar", "byref" if c.get("via") == "reference" else "byvalue", E.reg[cid] or "-", ",".join(E.prov_algs), enc_str(cid), ro])]
     lines = ["jar\tpar\treset"]
     npush = 0
     by = []
@@ -261,7 +278,11 @@ def model_lines(c, obs):
 
 def compare(c, obs, outs):
     if c["t"] == "jar":
-        return [] if outs[0] == obs["r"] else [f"by value: model={outs[0]} impl={obs}"]
+        if c.get("via") == "reference" and c["inner_cid"] == "other" and c.get("inner_ruri", "own") == "own" and outs[0] == "inner" and obs["r"] == "refused":
+            # (F-C16-h) the object took effect AS the other client — whose registered redirect URIs the (own) redirect_uri then fails to match: the
+            # refusal comes from the redirect-URI check of the OTHER client (C06), after the request-object stage the model describes
+            return []
+        return [] if outs[0] == obs["r"] else [f"by {c.get('via', 'value')}: model={outs[0]} impl={obs}"]
     if c["t"] == "jarpar":
         return [] if outs[0] == obs["r"] else [f"request object through PAR: the by-value policy says {outs[0]}, impl={obs}"]
     d = []
@@ -293,7 +314,7 @@ def oracle(c, obs):
             if not ok_alg:
                 v.append({"cls": "non-permitted-alg-took-effect", "alg": obs["alg"], "registered": reg})
             if c["inner_cid"] == "other":
-                v.append({"cls": "object-naming-other-client-took-effect"})
+                v.append({"cls": "object-naming-other-client-took-effect", "via": c.get("via", "value") if c["t"] == "jar" else "pushed"})
         if obs["r"] == "outer":
             v.append({"cls": "object-ignored"})
         return v
@@ -316,7 +337,7 @@ def known_key(c, v, known):
 
 def classify(c, obs):
     if c["t"] in ("jar", "jarpar"):
-        return f"{c['t']}:{c.get('fl', 'oidc')}:{obs['r']}"
+        return f"{c['t']}:{c.get('via', 'value')}:{c.get('fl', 'oidc')}:{obs['r']}"
     return "par:" + ",".join(sorted({s[0] for s in obs["steps"]}))
 
 
